@@ -211,6 +211,12 @@ def check(ctx):
         ctx.require(R5, arg_origins(c_, 2).has_leaf("param:3"), c_.where(), "signed with the digest parameter", [GEN, "digest"])
     good, hit = unreachable_without(g, okb, removed_nodes=[c_.bb for c_ in sg])
     ctx.require(R5, bool(sg) and good, "%s:%s" % (g.file, g.line), "every successful gen_certificate signed the certificate", [GEN, "signed"])
+    for c_ in sg:
+        after = g.reachable_after(c_.bb)
+        late = [x for x in g.calls if x.bb in after and x.bb != c_.bb and (x.name or "").startswith("openssl::x509::X509Builder::")
+                and (x.name or "").rsplit("::", 1)[-1] not in ("build", "sign", "x509v3_context") and (x.term.get("arg_tys") or [""])[0].startswith("&mut ")]
+        ctx.require(R5, not late, (late[0] if late else c_).where(), "nothing is set on the certificate after it has been signed (%s)" % sorted({x.name.rsplit("::", 1)[-1] for x in late}),
+                    [GEN, "set-after-sign"])
     nb_ = g.calls_to("openssl::x509::X509Builder::set_not_before")
     na = g.calls_to("openssl::x509::X509Builder::set_not_after")
     days = prog.const("acme_common::crypto::CRT_NB_DAYS_VALIDITY").get("int")
